@@ -1,7 +1,8 @@
 ---- MODULE J_C11 ----
 EXTENDS FaultRule, Json, IOUtils, TLC
 (* C11: the clauses of FaultRule on the results recorded from the real SmlReader over a fault-injecting io::Read. *)
-Mon(r) == FaultClauses(r.items, r.api, r.res, r.clean, r.fresh)
+Mon(r) == IF r.eh = 1 THEN FaultClausesEh(r.items, r.api, r.res, r.clean, r.fresh)
+          ELSE FaultClauses(r.items, r.api, r.res, r.clean, r.fresh)
 
 \* ---- batch judge loop (generated boilerplate, see bin/vf) ---------------
 Recs == ndJsonDeserialize(IOEnv.VF_TRACE)
